@@ -38,7 +38,8 @@ def inner(rnd, xs, n):
     return set(rnd.sample(cand, min(n, len(cand))))
 
 
-def grid_cfg(rnd, G, mode, op, families, faces, steps, kvs, with_cells=True, prove=False, nwin=3, edge=False, nq=12):
+def grid_cfg(rnd, G, mode, op, families, faces, steps, kvs, with_cells=True, prove=False, nwin=3, edge=False, nq=12,
+             invariants=None):
     S = 1 << G
     xs = window(rnd, S, nwin, force_edge=edge and rnd.random() < 0.5)
     ys = window(rnd, S, nwin, force_edge=edge and rnd.random() < 0.5)
@@ -47,16 +48,16 @@ def grid_cfg(rnd, G, mode, op, families, faces, steps, kvs, with_cells=True, pro
         "XS": set(xs), "YS": set(ys), "XH": inner(rnd, xs, 3), "YH": inner(rnd, ys, 3),
         "Steps": set(steps), "StairN": {2, 3, min(5, S)}, "Families": "{" + ", ".join('"%s"' % f for f in families) + "}",
         "KVs": set(kvs), "QSeed": rnd.randrange(1000), "NQ": nq, "WithCells": with_cells, "Prove": prove},
-        invariants=GRID_INV)
+        invariants=invariants or GRID_INV)
 
 
 def scenes(ctx, rnd):
     q = ctx.quick()
     cases = []
-    allf = ["one", "two", "polyline", "four", "thin", "faces"]
+    allf = ["one", "two", "polyline", "four", "thin", "faces", "compl"]
     # (G, families, number of faces, steps, prove the local rules on every case)
     if q:
-        plan = [(3, allf, 2, [1, 8], True), (4, ["two", "polyline", "faces"], 2, [1, 5], False), (5, ["two", "polyline"], 1, [1], False)]
+        plan = [(3, allf, 2, [1, 8], True), (4, ["two", "polyline", "faces", "compl"], 2, [1, 5], False), (5, ["two", "polyline", "compl"], 1, [1], False)]
     else:
         plan = [(2, allf, 6, [1, 2], True), (3, allf, 6, [1, 3, 8], True), (3, allf, 3, [1, 2], True),
                 (4, allf, 6, [1, 5], False), (4, allf, 2, [1, 2, 16], True), (5, allf, 3, [1, 7], False), (5, ["two", "four"], 2, [1], False)]
